@@ -21,7 +21,7 @@ CHECKS["C04"] = dict(
    design="4 C04")
 CHECKS["C07"] = dict(
    technique="Coq proof (every in-place operation on a frozen instance writes no pre-existing cell and deletion raises FrozenInstanceError; copy-on-write calls on frozen instances write no pre-existing cell) + differential correspondence incl. frozen/non-frozen twin runs of the implementation",
-   text="C07_inplace_operation_on_frozen_instance_writes_nothing (assignment, deletion, every helper with _inplace=True: no pre-existing heap cell is written, for every class table, heap, arguments and outcome), C07_delete_on_frozen_instance_raises_FrozenInstanceError, C07_write_reaching_the_frozen_guard_raises and C07_cow_call_on_frozen_instance_writes_nothing are proved in Coq over the instance model. For the 'evolvable by copy' half, C07_cow_with_scalar_partial / C07_twin_with_scalar_partial prove, for with_<a>(scalar) on flat instances of ANY class, frozen or not: the result is a fresh instance, its abstraction is the specification's, it is frozen again (the _thawed window set and removed the flag on the copy), and a table and its twin with the frozen flags cleared give abstractly equal results. The model is tied to /repo on every run (canonical object graphs after every operation on generated frozen class tables); the C07 oracle (a frozen instance never changes; copy-on-write calls leave it untouched) is evaluated in Coq on the implementation's observations; the twin relation (same copy-on-write history on the class with the frozen flag cleared gives the same object graphs) is checked implementation against implementation.",
+   text="C07_inplace_operation_on_frozen_instance_writes_nothing (assignment, deletion, every helper with _inplace=True: no pre-existing heap cell is written, for every class table, heap, arguments and outcome), C07_delete_on_frozen_instance_raises_FrozenInstanceError, C07_write_reaching_the_frozen_guard_raises and C07_cow_call_on_frozen_instance_writes_nothing are proved in Coq over the instance model. C07_inplace_operation_on_another_receiver_leaves_frozen_instance_untouched / C07_element_helper_on_another_receiver_... (instances of the C08 confinement theorems) prove that no in-place operation on ANOTHER receiver - e.g. a nested update through a parent - writes a frozen instance. For the 'evolvable by copy' half, C07_cow_with_scalar_partial / C07_twin_with_scalar_partial prove, for with_<a>(scalar) on flat instances of ANY class, frozen or not: the result is a fresh instance, its abstraction is the specification's, it is frozen again (the _thawed window set and removed the flag on the copy), and a table and its twin with the frozen flags cleared give abstractly equal results. The model is tied to /repo on every run (canonical object graphs after every operation on generated frozen class tables); the C07 oracle (a frozen instance never changes; copy-on-write calls leave it untouched) is evaluated in Coq on the implementation's observations; the twin relation (same copy-on-write history on the class with the frozen flag cleared gives the same object graphs) is checked implementation against implementation.",
    note="Trusted: Coq kernel + vm_compute; hand-written model; harness. Partial: the twin simulation is proved for with_<a>(scalar) on flat instances only; for every other helper and for nested receivers it is validated by twin runs of the implementation, not proved. Interpretation: argument-validation errors may pre-empt FrozenInstanceError; no-op calls (_if=False, UNCHANGED) do not raise; update(_new_value, _inplace=True) replaces the receiver by another object and is outside the theorem.",
    design="4 C07")
 NOT_YET = {}
